@@ -310,6 +310,26 @@ def main(tier, seed, replay):
             for c, v in zip(merged, mv):
                 c["verdict"] = v
 
+        # phase 2e: the same bytes as the blob of an artifact layer, read back through the typed accessors of
+        # ommx::artifact (a layer written by another conforming implementation or a newer schema release):
+        # the model's encoding (with its injected unknown fields) and the all-unpacked encoding
+        LAYER_TYPES = ("instance", "parametricinstance", "state", "sampleset")
+        lay = [c for c in cases if c["type"] in LAYER_TYPES]
+        if tier == "quick" and not replay:
+            lay = lay[:400]
+        sdk5 = C.run_harness([["c07_artifact_foreign", [c["type"], c["model_hex"]]] for c in lay])
+        for c, r in zip(lay, sdk5):
+            c["art_prost"] = r
+        lay_list = [c for c in lay if c["type"] in ("instance", "state")]
+        sdk7 = C.run_harness([["c07_artifact_foreign", [c["type"], c["model_hex"], "list"]] for c in lay_list])
+        for c, r in zip(lay_list, sdk7):
+            c["art_list_prost"] = r
+        lay_alt = [c for c in lay if "alt_hex" in c]
+        sdk6 = C.run_harness([["c07_artifact_foreign", [c["type"], c["alt_hex"]]] for c in lay_alt])
+        for c, r in zip(lay_alt, sdk6):
+            c["alt_art_prost"] = r
+        stats["artifact_layers_foreign"] = {"model_encoding": len(lay), "unpacked_encoding": len(lay_alt)}
+
         # phase 3: judge in Coq
         def res_tree(who, r):
             if isinstance(r, str):
@@ -329,6 +349,12 @@ def main(tier, seed, replay):
                     rs.append(res_tree("prost-of-protoc", c["prost_of_protoc"]))
             if "alt_prost" in c:
                 rs.append(res_tree("alt-prost", c["alt_prost"]))
+            if "art_prost" in c:
+                rs.append(res_tree("artifact-prost", c["art_prost"]))
+            if "art_list_prost" in c:
+                rs.append(res_tree("artifact-listing-prost", c["art_list_prost"]))
+            if "alt_art_prost" in c:
+                rs.append(res_tree("alt-artifact-prost", c["alt_art_prost"]))
             jt.append(["judge", c["type"], c["value"], rs])
         verdicts = C.run_in_coq(PROP, "RunC07", "run_C07", jt, shard_size=60 if tier == "quick" else 150, tag="judge")
         for c, v in zip(cases, verdicts):
@@ -413,6 +439,8 @@ def main(tier, seed, replay):
                        "model_bytes": small.get("model_hex"), "prost": small.get("prost"),
                        "protoc": small.get("protoc"), "stored_hex": small.get("stored_hex"), "parts": small.get("parts"),
                        "alt_bytes": small.get("alt_hex"), "alt_prost": small.get("alt_prost"),
+                       "artifact_layer": {"get": small.get("art_prost"), "listing": small.get("art_list_prost"),
+                                          "get_unpacked": small.get("alt_art_prost")},
                        "verdict": small["verdict"], "clause": small["verdict"][1] if len(small["verdict"]) > 1 else None,
                        "translator_diff": diffs, "stream": small["stream"], "seed": seed, "authority": AUTHORITY,
                        "replay_cmd": "python3 tools/check.py C07 --replay <this file>"}
